@@ -859,7 +859,7 @@ fn canon_counts(s: &Snap) -> (Vec<(M, Vec<u32>)>, u32) {
     (s.counts.clone(), s.ordered)
 }
 
-const C18_POOL: &[M] = &[M::A0, M::A1, M::B0, M::B2, M::B3, M::S0, M::S1, M::S2, M::GenU8, M::GenU16, M::GmU8, M::GmU16, M::GiU8, M::GiU16];
+const C18_POOL: &[M] = &[M::A0, M::A1, M::B0, M::B2, M::B3, M::S0, M::S1, M::S2, M::GenU8, M::GenU16, M::GmU8, M::GmU16, M::GiU8, M::GiU16, M::GnU8, M::GnU16];
 
 /// methods that are interchangeable (same signature, same capabilities): relabelling a scenario
 /// along such a pair changes nothing but the (arbitrary) order of the internal method table
@@ -873,6 +873,13 @@ pub fn gen_c18(base_seed: u64, batch: &str, run: u64, rng: &mut Rng) -> Scenario
     co.max_patterns = 3;
     co.ordered_pct = 35;
     co.nested_calls = batch != "reroute"; // nested calls are made on the instance the user code is given
+    if rng.chance(1, 12) {
+        // many methods at once: the layout transformations then move clauses across a large method table
+        co.min_methods = 9;
+        co.max_methods = 12;
+        co.min_patterns = 1;
+        co.max_patterns = 3;
+    }
     let mut cfg = gen_config(rng, &co);
     // a method answered with make_ref(self.clone()): a clone of the mock parked in the value chain of
     // whichever instance the call went through
@@ -1015,7 +1022,7 @@ pub fn check_c18(scn: &Scenario) -> Checked {
             }
         }
     }
-    if res.log.calls.iter().any(|c| matches!(c.m, M::GenU8 | M::GenU16 | M::GmU8 | M::GmU16 | M::GiU8 | M::GiU16) && matches!(c.outcome, Some(Outcome::Value(_)))) {
+    if res.log.calls.iter().any(|c| matches!(c.m, M::GenU8 | M::GenU16 | M::GmU8 | M::GmU16 | M::GiU8 | M::GiU16 | M::GnU8 | M::GnU16) && matches!(c.outcome, Some(Outcome::Value(_)))) {
         probe(&mut stats, "generic_instantiation_answered");
     }
     let mut rng = Rng::new(scn.knob("transform_seed").unwrap_or(1) as u64);
